@@ -37,6 +37,25 @@ def r1_registry(m):
             r.fail("dangling|%s" % n, "CPP_CLASS_NAMES lists %s, which is not a class of the module (AttributeError when a directive is met)" % n, None)
     if len(set(names)) != len(names):
         r.fail("duplicate", "CPP_CLASS_NAMES lists a class twice", None)
+    # every registered class is tried for every directive line: the loop of match_cpp_directive runs over the whole registry
+    f = m.need_func(CPP, "match_cpp_directive")
+    loops = [n for n in A.body_nodes(f.node) if isinstance(n, ast.For) and
+             any(isinstance(c, ast.Call) and A.dotted(c.func) == "getattr" for c in ast.walk(n))]
+    r.instances += 1
+    if len(loops) != 1:
+        r.error("match_cpp_directive: the loop trying the registered classes was not found (anchor changed)")
+        return r
+    it = loops[0].iter
+    whole = isinstance(it, ast.Name) and it.id == "CPP_CLASS_NAMES"
+    if isinstance(it, ast.Name) and not whole:
+        defs = [n for n in A.body_nodes(f.node) if isinstance(n, ast.Assign) and any(A.text(t) == it.id for t in n.targets)]
+        whole = bool(defs) and all(A.text(d.value) == "CPP_CLASS_NAMES" for d in defs)
+    if whole:
+        r.ob(True, "match_cpp_directive tries `for %s in %s`: the whole registry" % (A.text(loops[0].target), A.text(it)))
+    else:
+        r.error("match_cpp_directive no longer tries the whole registry for every line (`for %s in %s`): whether the narrowed selection "
+                "still finds the right class for `#if(X)`, `#include\"f\"`, ... cannot be decided by this rule"
+                % (A.text(loops[0].target), A.text(it)[:40]))
     return r
 
 
@@ -162,7 +181,7 @@ def run(m, tier):
     for rr_ in (r3, r4, r5):
         for f in rr_.findings:
             f.rule = rr_.rule
-    results = [r1_registry(m), r2_handlers(m), r3_reader_item(m), r3, r4, r5, rr.rule_semicolon(m, "C14.R7")]
+    results = [r1_registry(m), r2_handlers(m), r3_reader_item(m), r3, r4, r5, rr.rule_semicolon(m, "C14.R7"), rr.rule_directive_splice(m, "C14.R8")]
     from rules import shapes_rules
     results += shapes_rules.c14_rules(m)
     expl = ("Decides structural clauses of C14: registry exhaustiveness (Cpp_*_Stmt classes == CPP_CLASS_NAMES); for each of the 14 "
